@@ -23,7 +23,7 @@ RULE = ("full product envelope set E (lifecycle seeds, manifest length at every 
         "encoding) tuples / (r,s) pairs / signatures")
 ASSUMPTIONS = ["cryptography's verification primitives (ECDSA, Ed25519, Ed448)", "svmc/refcose.py (self-tested with RFC 8032 vectors)",
                "real-randomness stage (ii) is exhaustive only in the number of draws, each recorded signature is the artefact"]
-BOUNDS = {"quick": "|E|~45 x 6 (alg,key) x 11 key ids x 2 encodings; (r,s) seam complete; 2000 real signatures per curve",
+BOUNDS = {"quick": "|E|~45 x 6 (alg,key) x 11 key ids x 2 encodings; (r,s) seam complete; 5000 real signatures per curve",
           "thorough": "same product; 20000 real signatures per curve"}
 
 KIDS = [0x7FFFFFE0, 0, 1, 23, 24, 255, 256, 65535, 65536, 2**32 - 1, 0x40000000]
@@ -278,7 +278,7 @@ def run_rs(case, agg):
 # -- (ii) real signatures through the public KMS API ---------------------------------------------------
 
 def volume_cases(tier):
-    n = 2000 if tier == "quick" else 20000
+    n = 5000 if tier == "quick" else 20000
     out = []
     for key, alg in (("p256", "es-256"), ("p384", "es-384"), ("p521", "es-521")):
         for c in range(0, n, 250):
